@@ -28,7 +28,7 @@ def bounds():
 def gen_script(r, tier, idx):
     from vlib.man import Phase
 
-    kind = r.choice(["reset-in-connect", "reset-in-connect", "blackout-connected", "lossy", "rferr", "blackout-at-start", "mixed", "reset-anytime", "set-info", "interface-down", "rferr-long", "not-found-then-reset", "reset-at-step", "reset-at-step", "blackout-near-tick", "many-resets", "lossy-connect-then-long-blackout", "active-blackout", "active-blackout", "slow-lossy-first-connect"])
+    kind = r.choice(["reset-in-connect", "reset-in-connect", "blackout-connected", "lossy", "rferr", "blackout-at-start", "mixed", "reset-anytime", "set-info", "interface-down", "rferr-long", "not-found-then-reset", "reset-at-step", "reset-at-step", "blackout-near-tick", "many-resets", "lossy-connect-then-long-blackout", "active-blackout", "active-blackout", "slow-lossy-first-connect", "late-configuration"])
     phases, actions = [], []
     if kind == "reset-in-connect":
         # a reset at a 100 ms step of the first connection attempt
@@ -54,6 +54,11 @@ def gen_script(r, tier, idx):
         # (the lossy connection is a RE-connection, made while the previous facade's active profile -
         # 10 s not-responding timeout - is still installed)
         phases = [Phase("healthy", 20), Phase("blackout", r.choice([25, 40])), Phase("lossy", r.choice([40, 70]), r.choice([0.55, 0.7])), Phase("healthy", r.choice([20, 40])), Phase("blackout", 560)]
+    elif kind == "late-configuration":
+        # the manager is constructed with nothing but the client id (a configuration flow that learns
+        # the spa later) and is given address and identifier through async_set_spa_info
+        phases = [Phase("healthy", 6)]
+        actions = [(r.choice([0.0, 0.5, 2.0, 5.0]), "set-info")]
     elif kind == "active-blackout":
         # active timing profile (pump running): the missed pings themselves report the outage, long
         # before any request fails; the spa changes while unreachable
@@ -123,7 +128,7 @@ def scenario(sh: Shard, seed, idx, tier):
         Man = make_manager_class()
 
         async def main():
-            async with Man(mw, "02ac6d28-42d0-41e3-ad22-274d0aa491da", **mw.kw) as man:
+            async with Man(mw, "02ac6d28-42d0-41e3-ad22-274d0aa491da", **({} if kind == "late-configuration" else mw.kw)) as man:
                 mw.man = man
                 mw.pump_task()
                 sampler = asyncio.ensure_future(mw.sampler(0.2))
@@ -347,7 +352,7 @@ def main(tier, seed):
     run.extra["bounds_virtual_seconds"] = {"B_up": up, "B_down": down}
     run.need(run.counters.get("recoveries", 0) > 60, "too few recoveries observed")
     run.need(run.counters.get("long_outages_from_connected", 0) >= 1 or tier == "quick", "no long outage from CONNECTED")
-    for k in ("reset-in-connect", "blackout-connected", "lossy", "rferr", "blackout-at-start", "mixed", "interface-down", "rferr-long", "not-found-then-reset", "reset-at-step", "blackout-near-tick", "many-resets", "lossy-connect-then-long-blackout", "active-blackout", "slow-lossy-first-connect"):
+    for k in ("reset-in-connect", "blackout-connected", "lossy", "rferr", "blackout-at-start", "mixed", "interface-down", "rferr-long", "not-found-then-reset", "reset-at-step", "blackout-near-tick", "many-resets", "lossy-connect-then-long-blackout", "active-blackout", "slow-lossy-first-connect", "late-configuration"):
         run.need(k in run.sets.get("script_kinds", set()), f"script kind {k} not exercised")
     run.need(run.counters.get("config_region_changes_while_reported_unreachable", 0) >= 10, "the spa never changed a setting outside the refresh window while it was reported unreachable")
     return run.finish(
